@@ -11,7 +11,21 @@ import (
 	"flag"
 	"fmt"
 	"os"
+	"time"
 )
+
+// cheapest returns the smaller duration of two runs of f (the first run may pay for allocation)
+func cheapest(f func()) time.Duration {
+	best := time.Duration(1 << 62)
+	for i := 0; i < 2; i++ {
+		t := time.Now()
+		f()
+		if d := time.Since(t); d < best {
+			best = d
+		}
+	}
+	return best
+}
 
 type FindCase struct {
 	S   []int `json:"s"`
@@ -56,7 +70,9 @@ func init() {
 		re2p := fs.Float64("re2", 0.15, "probability of the RE2 dialect")
 		stream := fs.Uint64("stream", 1, "PRNG stream")
 		depth := fs.Int("depth", 4, "AST depth")
+		maxCost := fs.Duration("maxcost", 60*time.Microsecond, "drop inputs on which one search costs the engine more than this")
 		nullable := fs.Bool("nullable", false, "allow nullable / nested quantifier operands (outside the C01 fragment)")
+		caseFile := fs.String("case", "", "replay: JSON file {p,o,dia,rtl,s} - record exactly this case")
 		fs.Parse(args)
 
 		w := bufio.NewWriterSize(os.Stdout, 1<<20)
@@ -73,13 +89,48 @@ func init() {
 		enc := json.NewEncoder(w)
 		enc.SetEscapeHTML(false)
 
+		if *caseFile != "" {
+			var c struct {
+				P   Pat      `json:"p"`
+				O   []string `json:"o"`
+				Dia string   `json:"dia"`
+				RTL bool     `json:"rtl"`
+				S   []int    `json:"s"`
+			}
+			data, err := os.ReadFile(*caseFile)
+			if err == nil {
+				err = json.Unmarshal(data, &c)
+			}
+			if err != nil {
+				fmt.Fprintln(os.Stderr, err)
+				return 2
+			}
+			text := PrintPat(c.P, PrintOpts{X: has(c.O, "x"), RE2: c.Dia == "re2"})
+			re, err := compile(text, optBits(c.O, c.Dia, c.RTL))
+			if err != nil {
+				fmt.Fprintln(os.Stderr, "compile error:", err)
+				return 2
+			}
+			rec := FindRec{ID: 1, P: c.P, O: c.O, Dia: c.Dia, RTL: c.RTL, Text: text, Cases: []FindCase{}}
+			fc := FindCase{S: c.S, Res: []Res{}}
+			if fc.S == nil {
+				fc.S = []int{}
+			}
+			for st := 0; st <= len(c.S); st++ {
+				fc.Res = append(fc.Res, findRunesAt(re, intsToRunes(c.S), st))
+			}
+			rec.Cases = append(rec.Cases, fc)
+			enc.Encode(rec)
+			return 0
+		}
+
 		cfg := cfgC01()
 		cfg.MaxDepth = *depth
 		cfg.Nullable = *nullable
 		cfg.NestedRep = *nullable
 		g := &Gen{r: newRand(seedFromEnv(), *stream), c: cfg}
 		alpha := inputAlphabet(cfg)
-		compileErrs, cases := 0, 0
+		compileErrs, cases, skipped := 0, 0, 0
 		for id := 1; id <= *n; id++ {
 			t := g.Pattern()
 			o := randOpts(g, *optLetters, 0.2)
@@ -101,10 +152,21 @@ func init() {
 			for _, s := range g.Inputs(t, *ni, *maxLen, alpha) {
 				in := intsToRunes(s)
 				c := FindCase{S: s, Res: make([]Res, 0, len(s)+1)}
+				heavy := false
 				for st := 0; st <= len(in); st++ {
 					c.Res = append(c.Res, findRunesAt(re, in, st))
-					cases++
+					// cost guard: the specification is evaluated by TLC, about three orders of magnitude
+					// slower than the engine; searches that backtrack heavily are left to the relational checks
+					if cheapest(func() { findRunesAt(re, in, st) }) > *maxCost {
+						heavy = true
+						break
+					}
 				}
+				if heavy {
+					skipped++
+					continue
+				}
+				cases += len(c.Res)
 				rec.Cases = append(rec.Cases, c)
 			}
 			if err := enc.Encode(rec); err != nil {
@@ -112,7 +174,7 @@ func init() {
 				return 2
 			}
 		}
-		fmt.Fprintf(os.Stderr, "record-find: patterns=%d compile_errors=%d cases=%d\n", *n, compileErrs, cases)
+		fmt.Fprintf(os.Stderr, "record-find: patterns=%d compile_errors=%d cases=%d heavy_inputs_skipped=%d\n", *n, compileErrs, cases, skipped)
 		if compileErrs*20 > *n {
 			fmt.Fprintln(os.Stderr, "record-find: too many generated patterns failed to compile (generator/printer drift)")
 			return 2
